@@ -13,6 +13,10 @@ R-C07-5  condition-less loops that read input have an exit governed by the
 R-C07-6  file-declared 32-bit sizes never size an allocation unclamped
 R-C07-7  every dereference of a std::optional is dominated by a test of it
 R-C07-8  every failure result of a command path is accompanied by a diagnostic
+R-C07-9  every / and % has a divisor that is a non-zero constant or tested
+R-C07-10 back()/front()/pop_back()/pop_front() on a standard sequence only
+         where the container is known to be non-empty (test on every path, an
+         append on every path, or a constructor-established class invariant)
 """
 from ..runner import RuleResult
 from ..facts import AnalysisBroken
@@ -21,11 +25,11 @@ from .. import flow
 from ..flow import Guards, cmp_fact, same_expr, bool_atom, folded
 
 EXPLANATION = (
-    "Static decision of eight structural clauses of C07 over every product unit of dfs (all paths, hence all "
+    "Static decision of ten structural clauses of C07 over every product unit of dfs (all paths, hence all "
     "inputs): thrown types, exception containment in main, exit statuses and termination calls, size checks on "
     "every FileAccess::read result, input-governed exits of condition-less reading loops, taint from 32-bit "
-    "file fields to allocation sizes, dominance of every std::optional dereference by a test, and "
-    "diagnostic-on-failure for the command paths.  Not decided: general memory safety and termination of all "
+    "file fields to allocation sizes, dominance of every std::optional dereference by a test, non-zero "
+    "divisors, non-emptiness at every back()/front()/pop, and diagnostic-on-failure for the command paths.  Not decided: general memory safety and termination of all "
     "parsers, reachability of assertions in assertion-enabled builds.")
 ASSUMPTIONS = [
     "clang AST/CFG; call graph resolves virtual calls to all overriders",
@@ -147,6 +151,210 @@ def rule_optional_access(prog, fixture=False):
             r.add(key, fn.loc(n), ok, "" if ok else
                   "%s is dereferenced without a dominating test that it holds a value" % show(obj))
     return r
+
+
+# ---------------------------------------------------------------- R-C07-10
+END_ACCESS = {"back", "front", "pop_back", "pop_front", "top", "pop"}
+GROWERS = {"push_back", "emplace_back", "push_front", "emplace_front", "push", "emplace"}
+STD_SEQ = ("std::vector", "std::basic_string", "std::deque", "std::list", "std::stack", "std::queue",
+           "std::__cxx11::basic_string", "std::__cxx11::list")
+
+
+def _member_call(n):
+    """(method name, receiver node) of a member call, else (None, None)."""
+    if n.get("k") != "CXXMemberCallExpr":
+        return None, None
+    callee = strip(n["c"][0])
+    if not callee or callee.get("k") != "MemberExpr" or not callee.get("c"):
+        return None, None
+    return callee.get("n"), callee["c"][0]
+
+
+def _nonempty_fact(g, n, recv):
+    ts = g.truths(n)
+    if ts is None:
+        return None
+    for node, val in ts:
+        nm, r2 = _member_call(strip_all(node) or {})
+        if nm == "empty" and val is False and flow.same_expr(r2, recv):
+            return "tested with empty()"
+    for l, rel, rr in g.cmps(n) or []:
+        nm, r2 = _member_call(strip_all(l) or {})
+        if nm in ("size", "length") and flow.same_expr(r2, recv):
+            c = folded(rr)
+            if c is not None and ((rel == ">" and c >= 0) or (rel == ">=" and c >= 1) or (rel == "!=" and c == 0)):
+                return "size() compared with %d" % c
+    return False
+
+
+def _grown_before(fn, g, n, recv):
+    """Forward must-analysis: on every path to n an element has been appended to
+    the same container and nothing since could have shrunk or replaced it."""
+    pos = g.position(n)
+    if pos is None:
+        return False
+    root = flow.lvalue_root(recv)
+
+    def transfer(state, x):
+        nm, r2 = _member_call(x)
+        if nm is not None and flow.same_expr(r2, recv):
+            if nm in GROWERS:
+                return True
+            if nm in flow.MUTATORS:
+                return False
+            return state
+        if any(d == root and not elem for d, elem in flow.written_decls(x)):
+            return False
+        if x.get("k") == "DeclStmt" and any(v.get("d") == root for v in x.get("c", [])):
+            return False
+        return state
+    cfg = fn.cfg
+    out = {b: True for b in cfg.blocks}
+    out[cfg.entry] = False
+    changed = True
+
+    def block_out(b, upto=None):
+        st = all(out[p] for p in cfg.pred[b]) if cfg.pred[b] else False
+        if b == cfg.entry:
+            st = False
+        for e in cfg.blocks[b]["e"][:upto]:
+            x = fn.nodes.get(e) if isinstance(e, int) else None
+            if x is not None:
+                st = transfer(st, x)
+        return st
+    while changed:
+        changed = False
+        for b in cfg.blocks:
+            o = block_out(b)
+            if o != out[b]:
+                out[b] = o
+                changed = True
+    return block_out(pos[0], pos[1])
+
+
+def _vs_arith(prog, fn, e):
+    """value_set extended with + and * of value sets."""
+    e = strip_all(e)
+    vs = value_set(prog, fn, e)
+    if vs is not None or e is None:
+        return vs
+    if e.get("k") == "BinaryOperator" and e.get("op") in ("*", "+"):
+        a, b = _vs_arith(prog, fn, e["c"][0]), _vs_arith(prog, fn, e["c"][1])
+        if a is None or b is None:
+            return None
+        return {(x * y if e["op"] == "*" else x + y) for x in a for y in b}
+    if e.get("k") == "DeclRefExpr":
+        return value_set(prog, fn, e)
+    return None
+
+
+def _field_invariant_nonempty(prog, fn, recv):
+    """Class invariant for a member container: it is only ever modified in the
+    constructors of its class, and every constructor appends to it in a loop whose
+    first iteration certainly runs and which can only be left early by a throw.
+    Returns (True, why) / (False, why) / (None, why-undecidable)."""
+    f = strip_all(recv)
+    if f is None or f.get("k") != "MemberExpr" or f.get("dk") != "Field":
+        return None, "receiver is not a member field"
+    fq, fname = f.get("q") or f.get("n"), f.get("n")
+    cls = fn.cls
+
+    def is_field(x):
+        x = strip_all(x)
+        return x is not None and x.get("k") == "MemberExpr" and (x.get("q") or x.get("n")) == fq
+
+    writers = set()
+    for g in prog.functions.values():
+        for x in g.walk():
+            nm, r2 = _member_call(x)
+            if nm in flow.MUTATORS | GROWERS and nm != "reserve" and is_field(r2):
+                writers.add(g)
+            elif x.get("k") in ("BinaryOperator", "CXXOperatorCallExpr") and x.get("op") in flow.ASSIGN_OPS:
+                tgt = x["c"][0] if x["k"] == "BinaryOperator" else (x["c"][1] if len(x["c"]) > 1 else None)
+                if tgt is not None and is_field(tgt):
+                    writers.add(g)
+    ctors = [g for g in prog.functions.values() if g.cls == cls and "inits" in g.raw]
+    if not ctors:
+        ctors = [g for g in writers if g.name == (cls or "").split("::")[-1]]
+    non_ctor = [g for g in writers if g not in ctors]
+    if non_ctor:
+        return None, "%s is also modified in %s" % (fname, ", ".join(sorted(g.qn for g in non_ctor)))
+    if not ctors:
+        return None, "no constructor of %s found" % cls
+    for c in ctors:
+        ok = False
+        for loop in c.walk():
+            if loop.get("k") != "ForStmt" or "cond" not in loop.get("parts", {}) or "init" not in loop["parts"]:
+                continue
+            body = loop["c"][loop["parts"]["body"]]
+            pushes = [x for x in walk(body) if _member_call(x)[0] in GROWERS and is_field(_member_call(x)[1])]
+            if not pushes:
+                continue
+            if any(x.get("k") in ("BreakStmt", "ContinueStmt", "ReturnStmt", "GotoStmt") for x in walk(body)):
+                continue
+            # the push must not be nested in a conditional of the body
+            cond_nested = False
+            for a in c.ancestors(pushes[0]):
+                if a is body or a["i"] == body["i"]:
+                    break
+                if a.get("k") in ("IfStmt", "SwitchStmt", "ConditionalOperator", "ForStmt", "WhileStmt", "CXXTryStmt"):
+                    cond_nested = True
+            if cond_nested:
+                continue
+            init = [x for x in walk(loop["c"][loop["parts"]["init"]]) if x.get("k") == "VarDecl" and x.get("c")]
+            cond = strip_all(loop["c"][loop["parts"]["cond"]])
+            if len(init) != 1 or cond.get("k") != "BinaryOperator" or cond.get("op") not in ("<", "<=", "!="):
+                continue
+            v0 = folded(init[0]["c"][0])
+            lhs = strip_all(cond["c"][0])
+            if v0 is None or lhs.get("k") != "DeclRefExpr" or lhs.get("d") != init[0]["d"]:
+                continue
+            lim = _vs_arith(prog, c, cond["c"][1])
+            if lim is None:
+                continue
+            if (cond["op"] == "<" and min(lim) > v0) or (cond["op"] == "<=" and min(lim) >= v0) or \
+                    (cond["op"] == "!=" and v0 not in lim and min(lim) > v0):
+                ok = True
+        if not ok:
+            return None, "cannot show that constructor %s always appends to %s" % (c.qn, fname)
+    return True, "class invariant: %s is filled by a loop that runs at least once in every constructor of %s " \
+                 "and is modified nowhere else" % (fname, cls)
+
+
+def rule_nonempty_access(prog, fixture=False):
+    r = RuleResult("R-C07-10", "back()/front()/pop_back()/pop_front() on a standard sequence is reached only when "
+                   "the container is known to be non-empty (empty()/size() test on every path, an append just "
+                   "before, or a class invariant established by the constructors)", floor=0 if fixture else 6)
+    for fn in prog.functions.values():
+        g = None
+        for n in fn.walk():
+            nm, recv = _member_call(n)
+            if nm not in END_ACCESS:
+                continue
+            rt = notpl((strip_all(recv) or {}).get("ct") or (strip_all(recv) or {}).get("t") or "")
+            q = notpl(n.get("q") or "")
+            if not (q.startswith(STD_SEQ) or rt.replace("const ", "").startswith(STD_SEQ)):
+                continue
+            if g is None:
+                g = Guards(fn)
+            key = "%s::%s::%s.%s()" % (fn.relfile(), fn.qn, show(recv), nm)
+            why = _nonempty_fact(g, n, recv)
+            if why is None:
+                continue  # unreachable
+            if not why and _grown_before(fn, g, n, recv):
+                why = "an element is appended just before"
+            if not why:
+                inv, reason = _field_invariant_nonempty(prog, fn, recv)
+                if inv:
+                    why = reason
+                elif (strip_all(recv) or {}).get("dk") == "Field":
+                    r.undecided.append("%s: %s (%s)" % (fn.loc(n), key, reason))
+                    continue
+            r.add(key, fn.loc(n), bool(why), why if why else
+                  "%s.%s() is reached without any test that %s is non-empty: undefined behaviour (crash) on an "
+                  "empty container" % (show(recv), nm, show(recv)))
+    return r
+
 
 
 # ---------------------------------------------------------------- R-C07-4
@@ -1015,7 +1223,7 @@ def run(ctx):
     prog = ctx.prog("dfs", "N")
     return [rule_throw_types(prog), rule_containment(prog), rule_exit_status(prog), rule_short_reads(prog),
             rule_reading_loops(prog), rule_alloc_taint(prog), rule_optional_access(prog), rule_divisors(prog),
-            rule_diagnosed_failures(prog)]
+            rule_diagnosed_failures(prog), rule_nonempty_access(prog)]
 
 
 SELFTESTS = [
@@ -1029,4 +1237,6 @@ SELFTESTS = [
     (rule_alloc_taint, ["c07_loop_bad.cc"], ["c07_loop_good.cc"], "resize"),
     (rule_diagnosed_failures, ["c07_diag_bad.cc"], ["c07_diag_good.cc"], "Cmd::invoke"),
     (rule_divisors, ["c07_diag_bad.cc"], ["c07_diag_good.cc"], "read_block"),
+    (rule_nonempty_access, ["c07_end_bad.cc"], ["c07_end_good.cc"], "with_slash"),
+    (rule_nonempty_access, ["c07_end_bad.cc"], ["c07_end_good.cc"], "next_start"),
 ]
